@@ -129,7 +129,7 @@ for p in props:
         })
 NA = {
  "C02": "only partly expressible as contracts: FIFO per date and back-end independence are proved (WaitQueue refinement, Loop.schedule, __awake_all__ order) and serve C01; independence of hash seed / memory layout needs whole-program scans for set/WeakSet/id() ordered iteration (Tracked._listeners is such a WeakSet) that this family does not provide",
- "C12": "Resources/Tracked and the exec-generated ResourceLevels operators are not under contract yet",
+ "C12": "the resource classes (usim._basics.resource) and the exec-generated ResourceLevels operators are not under contract (Tracked.set is, under C08/C20); a confirmed defect of this property (D6: amounts leak when a borrower is cancelled while entering the block) is described in DESIGN 12.9 but not decided by any check",
  "C15": "Loop._run_events (quiescence, root order via Loop.__init__) is proved and reported under C01; Loop.run/StateHandler.assign (restoring the enclosing simulation), ActivityLeak reporting and usim.run(till=) are not under contract, and thread isolation rests on threading.local, outside this family",
  "C18": "the SimPy compatibility layer (usim.py.events/core) is not under contract yet",
  "C19": "the SimPy resources (usim.py.resources) are not under contract yet",
@@ -143,7 +143,7 @@ m = {"version": 1,
      "engines": [{"name": "pyvc", "path": "pyvc/", "serves_properties": sorted(CLAIMS),
                   "kind_free_text": "AST->VC symbolic executor for a Python subset with sidecar contracts; z3/cvc5 back ends"}],
      "checks": checks,
-     "notes": "see DESIGN.md; known findings in known_findings.json",
+     "notes": "see DESIGN.md section 12; known findings in known_findings.json. Every check decides by proof obligations; only when a changed function leaves the verifier's Python subset (no obligation can be generated) a failing scenario of scenarios/library/<id>/ stands in, labelled BOUNDED in the output -- never counted as proved, and on the unchanged tree nothing depends on it.",
      "not_applicable": na}
 json.dump(m, open(os.path.join(V, "MANIFEST.json"), "w"), indent=1)
 print("claimed:", sorted(CLAIMS))
